@@ -57,9 +57,13 @@ def generate_e3(tier):
             gfile = os.path.join(out, name + ".rustemo")
             shutil.copyfile(c["file"], gfile)
             d = gen_e4.vdump(gfile, c["args"] + largs + ["--builder", "generic"], gen_dir=out)
-            if "error" in d or "panic" in d:
+            if "panic" in d:
+                raise gen_e4.CompilerPanic(c["file"], c["args"] + largs)
+            if "error" in d:
                 raise gen_e4.GenError("compiler rejected corpus grammar %s: %s" % (name, str(d)[:300]))
             pfile = os.path.join(out, name + ".rs")
+            if d.get("_gen_rc") == 4:
+                raise gen_e4.CompilerPanic(c["file"], c["args"] + largs + ["(generator)"])
             if d.get("_gen_rc") != 0 or not os.path.exists(pfile):
                 raise gen_e4.GenError("generator failed on %s: rc=%s %s" % (name, d.get("_gen_rc"), d.get("_gen_err")))
             text = open(pfile).read()
@@ -172,8 +176,7 @@ pub mod {name} {{
             assert!(e == want[i], "C08 action = computed action, in order");
             i += 1;
         }}
-        kani::cover!(want.len() >= 1 && want[0].0 == 2, "a reduction cell");
-        kani::cover!(want.len() == 0, "an empty cell");
+{cov_actions}
         std::mem::forget(got);
     }}
 
@@ -191,7 +194,7 @@ pub mod {name} {{
         {nt_order}
         let got = PARSER_DEFINITION.goto(STATES[s], nt);
         assert!(got as usize == want, "C08 goto = computed goto");
-        kani::cover!(s > 0, "goto from a non-initial state");
+{cov_gotos}
     }}
 
     /// every expected-token query = the computed sorted terminals with finish flags
@@ -214,7 +217,7 @@ pub mod {name} {{
             assert!(got[i].0 as usize == want[i].0 && got[i].1 == want[i].1, "C08 expected token and finish flag, in order");
             i += 1;
         }}
-        kani::cover!(want.len() >= 2, "state with several expected tokens");
+{cov_expected}
         std::mem::forget(got);
     }}
 
@@ -238,6 +241,16 @@ pub mod {name} {{
                     name=name, m=m, NS=NS, NT=NT, NN=NN, NPK=k,
                     states=",".join("State::" + v for v in state_names), toks=",".join("TokenKind::" + v for v in tok_names),
                     nts=opt("NonTermKind", nt_names, nts), prods=opt("ProdKind", prod_names, prods),
+                    cov_actions="".join(l for c_, l in (
+                        (any(c2 and c2[0][0] == "R" for st_ in t["states"] for c2 in st_["actions"]), '        kani::cover!(want.len() >= 1 && want[0].0 == 2, "a reduction cell");\n'),
+                        (any(not c2 for st_ in t["states"] for c2 in st_["actions"]), '        kani::cover!(want.len() == 0, "an empty cell");\n'),
+                        (True, '        kani::cover!(true, "end of harness reachable");\n')) if c_),
+                    cov_gotos="".join(l for c_, l in (
+                        (any(x is not None for st_ in t["states"][1:] for x in st_["gotos"]), '        kani::cover!(s > 0, "goto from a non-initial state");\n'),
+                        (True, '        kani::cover!(true, "end of harness reachable");\n')) if c_),
+                    cov_expected="".join(l for c_, l in (
+                        (any(len(st_["sorted_terminals"]) >= 2 for st_ in t["states"]), '        kani::cover!(want.len() >= 2, "state with several expected tokens");\n'),
+                        (True, '        kani::cover!(true, "end of harness reachable");\n')) if c_),
                     nt_order=('assert!(nt as usize == n, "C08 the arrays layout indexes goto columns by the NonTermKind discriminant");' if layout == "arr" else "// functions layout: goto arms match by name"),
                     want_actions=want_actions, want_gotos=want_gotos, want_exp=want_exp, prod_nt=prod_nt,
                     ua=max(maxa + 3, NT + 3, k + 2, 8), ue=max(maxe + 3, 8), maxa=maxa, maxe=maxe,
